@@ -272,7 +272,7 @@ class PeriodicGrid(Grid):
         else:
             # SVD is used to construct the pseudo-inverse and to check if the
             # lattice vectors are not singular.
-            rcond = np.finfo(realvecs.dtype).eps * max(realvecs.shape)
+            rcond = np.finfo(float).eps * max(realvecs.shape)
             U, S, Vt = np.linalg.svd(realvecs, full_matrices=False)
             if abs(S).max() * rcond > abs(S).min():
                 raise ValueError("The cell vectors are singular.")
